@@ -207,6 +207,9 @@ func aryCodec[W any, T any](c *codec[T], combName string, lk refwire.LenKind, ve
 		_, nm := c.prior(j)
 		priors = append(priors, pr{nm, func() []T { p, _ := c.prior(j); q, _ := c.prior(j); return []T{p, q} }})
 	}
+	// spare capacity SMALLER than the longest alphabet value (len 1 < cap 2 < 3): the decoder has to
+	// replace a buffer it only partly used. Appended last so that earlier prior indexes keep their meaning.
+	priors = append(priors, pr{"spare-capacity-below-value", func() []T { s := stale(2); s[0] = c.gen(0); return s[:1] }})
 	return &codec[W]{
 		name: combName + "<" + c.name + ">", kind: "Ary", depth: c.depth + 1,
 		n:   len(vectors),
